@@ -9,70 +9,70 @@ blk = src[src.index('def open_'):]
 blk = blk[:blk.index('\n]')]
 ents = re.findall(r'^\s*\("((?:[^"\\]|\\.)*)", (\d+)\)', blk, flags=re.M)
 rules = [
- # (regex on key, class expr)
- (r'validation\.go:ValidateSystemTx:slice:<types\.CallInfo>\.Args\[1:\]', 'trap [sCandSlice]'),
- (r'parseIDForProposal:index', 'trap [sParseId0]'),
- (r'newVoteCmd:slice', 'trap [vDaoSlice]'),
- (r'newVoteCmd:(assert|index):.*Args\[0\]', 'trap [vDaoId]'),
- (r'newVoteCmd:(assert|index):.*Args\[1\]', 'trap [vDaoVal]'),
- (r'newVoteCmd:assert:v\.\(string\)', 'trap [vBpCand]'),
+ # (regex on key, class expr); keys print function-local names as `_` and attribute private single-caller helpers to their caller
+ (r'validation\.go:ValidateSystemTx:slice:_\.Args\[1:\]', 'trap [sCandSlice]'),
+ (r'validation\.go:ValidateSystemTx:index:_\.Args\[0\]', 'trap [sParseId0]'),
+ (r'ExecuteSystemTx:slice:_\.Call\.Args\[1:\]', 'trap [vDaoSlice]'),
+ (r'ExecuteSystemTx:(assert|index):_\.Call\.Args\[0\]', 'trap [vDaoId]'),
+ (r'ExecuteSystemTx:(assert|index):_\.Call\.Args\[1\]', 'trap [vDaoVal]'),
+ (r'ExecuteSystemTx:assert:_\.\(string\)', 'trap [vBpCand]'),
  (r'SubVote:nilarg', 'trap [rSubNil]'),
  (r'AddVote:slice', 'trap [rAddSlice]'),
- (r'Sync:index:resultList\.Votes\[0\]', 'trap [rSyncTop]'),
+ (r'Sync:index:_\.Votes\[0\]', 'trap [rSyncTop]'),
  (r'threshold:div', 'trap [rThreshDiv]'),
  (r'CalcGas:div', 'trap [fCalcGas]'),
- (r'validateTx:assert:rsp', 'trap [pFdRsp]'),
- (r'ExecuteNameTx:(assert|index):ci\.Args\[0\]', 'trap [nExCreate0, nExUpd0, nExOwner0]'),
- (r'ExecuteNameTx:(assert|index):ci\.Args\[1\]', 'trap [nExUpd1]'),
+ (r'validateTx:assert:_\.\(message', 'trap [pFdRsp]'),
+ (r'ExecuteNameTx:(assert|index):_\.Args\[0\]', 'trap [nExCreate0, nExUpd0, nExOwner0]'),
+ (r'ExecuteNameTx:(assert|index):_\.Args\[1\]', 'trap [nExUpd1]'),
  (r'ValidateNameTx:(assert|index)', 'trap [nVal0]'),
- (r'getAdmins:slice', 'trap [gAdmins]'),
+ (r'ValidateEnterpriseTx:slice:_\[_ : _\+types\.AddressLength\]', 'trap [gAdmins]'),
  (r'Conf\.Validate:index', 'trap [cRpcSplit]'),
- (r'ExecuteEnterpriseTx:index:context\.Args\[0\]', 'trap [xCtx0]'),
- (r'ExecuteEnterpriseTx:index:context\.Call\.Args\[1\]', 'trap [xEnable1]'),
- (r'ExecuteEnterpriseTx:index:context\.ArgsAny\[0\]', 'trap [xAny0]'),
- (r'ValidateEnterpriseTx:index:<\*EnterpriseContext>\.Args\[0\]', 'trap [eCtx0]'),
- (r'ValidateEnterpriseTx:slice:<\*EnterpriseContext>\.Args\[1:\]', 'trap [eCtxTail]'),
- (r'ValidateEnterpriseTx:index:<\*EnterpriseContext>\.Args\[1\]', 'trap [eCtx1]'),
- (r'ValidateEnterpriseTx:assert:<types\.CallInfo>\.Args\[0\]', 'trap [eEnable0]'),
- (r'checkArgs:index:<\*types\.CallInfo>\.Args\[0\]', 'trap [eCheckArgs0]'),
+ (r'config\.go:getConf:index:_\[0\]', 'trap [cDeser0]'),
+ (r'ExecuteEnterpriseTx:index:_\.Args\[0\]', 'trap [xCtx0]'),
+ (r'ExecuteEnterpriseTx:index:_\.Call\.Args\[1\]', 'trap [xEnable1]'),
+ (r'ExecuteEnterpriseTx:index:_\.ArgsAny\[0\]', 'trap [xAny0]'),
+ (r'ValidateEnterpriseTx:index:_\.Args\[0\]', 'trap [eCtx0, eCheckArgs0]'),
+ (r'ValidateEnterpriseTx:slice:_\.Args\[1:\]', 'trap [eCtxTail]'),
+ (r'ValidateEnterpriseTx:index:_\.Args\[1\]', 'trap [eCtx1]'),
+ (r'ValidateEnterpriseTx:assert:_\.Args\[0\]', 'trap [eEnable0]'),
  # stored records
  (r'SubVote:slice', 'stored "old BP vote record = whole 39-byte ids: invariant OldVotesOk (hypothesis of the execution theorems; broken only through the known finding rAddSlice)"'),
- (r'vote\.go:deserializeVote(Ex|List)?:', 'stored "written by serializeVote/serializeVoteEx/serializeVoteList of the same file; read by every vote/unstake the harness executes"'),
- (r'staking\.go:deserializeStaking', 'stored "written by serializeStaking; read by every system transaction the harness executes"'),
- (r'name\.go:deserializeNameMap', 'stored "written by serializeNameMap (version 1, two length-prefixed fields); absent key = nil; read for every name sender/recipient the harness resolves"'),
- (r'config\.go:deserializeConf:index', 'trap [cDeser0]'),
+ (r'vote\.go:deserializeVote(Ex)?:|voteresult\.go:loadVoteResult:slice', 'stored "written by serializeVote/serializeVoteEx/serializeVoteList; read by every vote/unstake the harness executes"'),
+ (r'staking\.go:getStaking:slice', 'stored "deserializeStaking: written by serializeStaking; read by every system transaction the harness executes"'),
+ (r'name\.go:getNameMap:(index|slice)', 'stored "deserializeNameMap: written by serializeNameMap (version 1, two length-prefixed fields); absent key = nil; read for every name sender/recipient the harness resolves"'),
  # library contracts
  (r'DecodeAddressBytes', 'lib "base58check.Decode returns at least the version byte or an error (checked in the library source)"'),
- (r'deserializeConf:slice:strings\.Split', 'lib "strings.Split returns at least one element"'),
+ (r'getConf:slice:strings\.Split', 'lib "strings.Split returns at least one element"'),
  (r'types/raft\.go:.*_name\[', 'lib "protobuf-generated enum name table: a map read"'),
  (r'CcArgument\.get:index', 'lib "CcArgument is a named map type: a map read"'),
  (r'whitelistConf\.Check:index', 'lib "whitelist is a map field: a map read"'),
- (r'getBucketIdx:index', 'lib "types.AccountID is a [32]byte array"'),
- (r'CalculateMemberID:slice:hash\[:8\]', 'lib "sha1.Sum-style fixed-size digest"'),
- (r'GetName:index:consensus\.ConsensusName', 'lib "static table indexed by a constant"'),
- (r'state/block\.go:BlockState\.AddReceipt:slice:binary\[24:\]', 'lib "bloom GobEncode output starts with a 24-byte header"'),
+ (r'vprStore\.update:index:_\[0\]', 'lib "getBucketIdx: types.AccountID is a [32]byte array"'),
+ (r'CalculateMemberID:slice:_\[:8\]', 'lib "sha1.Sum-style fixed-size digest"'),
+ (r':index:consensus\.ConsensusName', 'lib "static table indexed by a constant"'),
+ (r'state/block\.go:BlockState\.AddReceipt:slice:_\[24:\]', 'lib "bloom GobEncode output starts with a 24-byte header"'),
  # constructor-initialised maps
+ (r'getAccountState:mapwrite:(balance|nonce)', 'offPath "mp.testConfig is set only by the pool unit tests"'),
  (r':mapwrite:', 'ctor "the map is created by the constructor of its struct / by make in the package initialiser (newVoteResult, newVprStore, newTopVoters, newVpr, systemParams literal, initSysCmd)"'),
  # bounded by surrounding code
- (r'ValidateSystemTx:index:proposal\.Candidates', 'bounded "indices supplied by sort.Slice / guarded by i < len; the four system proposals have no candidate list"'),
+ (r'ValidateSystemTx:index:_\.Candidates', 'bounded "indices supplied by sort.Slice / guarded by i < len; the four system proposals have no candidate list"'),
  (r'Conf\.RemoveValue:slice', 'bounded "i is the range index of c.Values"'),
- (r'ExecuteEnterpriseTx:slice:context\.Admins', 'bounded "i is the range index of context.Admins"'),
- (r'adjustRv:slice', 'bounded "len(ret) > maxRetSize is tested on the line above"'),
+ (r'ExecuteEnterpriseTx:slice:_\.Admins', 'bounded "i is the range index of context.Admins"'),
+ (r'executeTx:slice:_\[:maxRetSize-4\]', 'bounded "adjustRv: len(ret) > maxRetSize is tested on the line above"'),
  (r'OpSysTx\.ID:slice', 'bounded "op < OpSysTxMax is tested above; every stringer name starts with Op"'),
  (r'NewReceipt:slice', 'bounded "AccountState.ID() pads every id to 33 bytes"'),
  (r'types/receipt\.go:Receipt\.marshalBody(V2)?:slice', 'bounded "l := make([]byte, 8) in the same function"'),
  (r'AddressPadding', 'bounded "id := make([]byte, AddressLength) in the same function"'),
- (r'vprt\.go:(remove|topVoters\.lowest|toVotingPower):assert', 'bounded "only *votingPower values are put into the bucket lists and the rank tree (vprStore.update/addTail, topVoters.update)"'),
+ (r'vprt\.go:(vprStore\.update|topVoters\.lowest|toVotingPower):assert', 'bounded "only *votingPower values are put into the bucket lists and the rank tree (vprStore.update/addTail, topVoters.update)"'),
  # explicit panics on storage errors
  (r':panic:panic\(\\"(failed to get staking total|voting data corruption|could not deserializeOwner)', 'storageErr'),
  # off path
  (r'types/blockchain\.go:(AvgTime|MovingAverage)', 'offPath "block producer signing-time statistics (reached only through the method-name over-approximation Get/Add)"'),
  (r'types/logging\.go', 'offPath "p2p log formatting"'),
- (r'types/quirk\.go:putTxID', 'offPath "package initialisation of the quirk table"'),
+ (r'types/quirk\.go', 'offPath "package initialisation of the quirk table"'),
  (r'types/rpc\.go:ConfigItem\.Add', 'offPath "RPC config reply (method name Add)"'),
  (r'mempool/stub\.go', 'offPath "mp.testConfig is set only by the pool unit tests"'),
  (r'chain/debugger\.go', 'offPath "debugger conditions (method names Check/String)"'),
- (r'raftlogger\.go', 'offPath "raft log formatting"'),
+ (r'raftlogger\.go|raftv2/.*defaultArgsFormat', 'offPath "raft log formatting"'),
 ]
 out=[]
 un=[]
@@ -87,14 +87,13 @@ if un:
     print("UNCLASSIFIED:"); [print("  ",u) for u in un]; sys.exit(1)
 # entries for sites whose expression is discharged in the source itself (auto) today
 extra=[
- ('types/transaction.go:validateNameTx:index:<CallInfo>.Args[1]',1,'trap [tNameUpdTo]'),
- ('types/transaction.go:validateNameTx:index:<CallInfo>.Args[0]',1,'trap [tNameOwner0]'),
- ('types/transaction.go:_validateNameTx:index:<*CallInfo>.Args[0]',1,'trap [tNameCommon0]'),
- ('types/vote.go:VoteList.Less:slice:<VoteList>.Votes[<int>].Candidate[7:]',2,'trap [tLessSlice]'),
- ('contract/enterprise/validate.go:ValidateEnterpriseTx:index:<types.CallInfo>.Args[0]',9,'trap [eAdmin0, eEnable0]'),
- ('contract/enterprise/validate.go:ValidateEnterpriseTx:index:<types.CallInfo>.Args[1]',1,'trap [eEnable1]'),
- ('contract/enterprise/validate.go:checkRPCPermissions:index:values[0]',1,'trap [eRpcVals0]'),
- ('contract/enterprise/changecluster.go:ValidateChangeCluster:index:<types.CallInfo>.Args[0]',2,'trap [eCc0]'),
+ ('types/transaction.go:InitGovernance:index:_.Args[1]',1,'trap [tNameUpdTo]'),
+ ('types/transaction.go:InitGovernance:index:_.Args[0]',2,'trap [tNameOwner0, tNameCommon0]'),
+ ('types/vote.go:VoteList.Less:slice:_.Votes[_].Candidate[7:]',2,'trap [tLessSlice]'),
+ ('contract/enterprise/validate.go:ValidateEnterpriseTx:index:_.Args[0]',9,'trap [eAdmin0, eEnable0]'),
+ ('contract/enterprise/validate.go:ValidateEnterpriseTx:index:_.Args[1]',1,'trap [eEnable1]'),
+ ('contract/enterprise/validate.go:ValidateEnterpriseTx:index:_[0]',1,'trap [eRpcVals0]'),
+ ('contract/enterprise/changecluster.go:ValidateChangeCluster:index:_.Args[0]',2,'trap [eCc0]'),
 ]
 def q(s): return '"'+s+'"'   # keys are already Lean-escaped as taken from the generated file
 lines=[]
